@@ -61,6 +61,102 @@ def domain_ok(cond, fchain, rep_detail):
     return True, f"mask bounds {F.show_chain(pre)} from below"
 
 
+def _flat_and(c):
+    if c[0] == 'and':
+        return _flat_and(c[1]) + _flat_and(c[2])
+    return [c]
+
+
+def interval_domain_ok(cond, fchain, bounds, eps_value=1e-10):
+    """composite mask `x > L & x < U` (both sides affine in x): the interval (L, U) is pushed through the forward chain; every
+    pow(-1) must see an interval that excludes 0 and every log a positive one.  Signs are decided for ratios of polynomials with
+    positive coefficients over positive symbols (EPS, D); an atom exp(p) whose parameter's lower bound gives exp(lb) > EPS is
+    written EPS + D with D > 0.  -> (True | None, detail)"""
+    import math
+    from ..poly import Poly
+    lo = hi = None
+    for c in _flat_and(cond):
+        if c[0] != 'cmp' or c[1] not in ('>', '>=', '<', '<='):
+            return None, "mask form"
+        a, b = (c[2], c[3]) if c[1] in ('>', '>=') else (c[3], c[2])
+        try:
+            ch = F.to_chain(('sub', a, b))
+        except Undecided as ex:
+            return None, str(ex)
+        if len(ch) != 1 or ch[0][0] != 'aff' or not ch[0][1].is_const() or ch[0][1].is_zero():
+            return None, "mask bound is not affine in x"
+        s, o = ch[0][1], ch[0][2]
+        bnd = -o / s
+        if s.cval() > 0:
+            lo = bnd
+        else:
+            hi = bnd
+    if lo is None or hi is None:
+        return None, "one-sided composite mask"
+    subst = {}
+
+    def prep(r):
+        n, d = r.n, r.d
+        for sym in sorted(r.symbols()):
+            if sym.startswith("⟨exp(") and sym not in subst:
+                inner = sym[len("⟨exp("):].split(")")[0]
+                lb = bounds.get(inner, (None, None, None))[0]
+                if lb is not None and math.exp(lb) > eps_value:
+                    subst[sym] = Poly.sym('EPS') + Poly.sym('D:' + inner)
+        for sym, pl in subst.items():
+            n, d = n.subst(sym, pl), d.subst(sym, pl)
+        return Ratio(n, d)
+
+    def positive(r):
+        r = prep(r)
+        pos = {"EPS"} | {x for x in r.symbols() if x.startswith("D:")}
+        def sgn(poly):
+            if not poly.t or not poly.symbols() <= pos:
+                return None
+            cs = list(poly.t.values())
+            return 1 if all(c > 0 for c in cs) else -1 if all(c < 0 for c in cs) else None
+        a, b = sgn(r.n), sgn(r.d)
+        return a is not None and b is not None and a == b
+
+    def known_sign(r):
+        if r.is_const():
+            return 1 if r.cval() > 0 else -1 if r.cval() < 0 else 0
+        if positive(r):
+            return 1
+        if positive(-r):
+            return -1
+        return None
+    flat = []
+    for o in fchain:
+        if o[0] == 'odd':
+            return None, "odd extension in the chain"
+        flat.append(o)
+    INF = "inf"
+    for o in flat:
+        if o[0] == 'aff':
+            sg = known_sign(o[1])
+            if sg is None or sg == 0:
+                return None, f"sign of the slope {o[1]} unknown"
+            f_ = lambda v: v if isinstance(v, str) else o[1] * v + o[2]
+            nlo, nhi = f_(lo), f_(hi)
+            if sg < 0:
+                nlo, nhi = nhi, nlo
+                nlo = "-inf" if isinstance(nlo, str) and nlo == INF else nlo
+                nhi = INF if isinstance(nhi, str) and nhi == "-inf" else nhi
+            lo, hi = nlo, nhi
+        elif o[0] == 'pow' and o[1].is_const() and o[1].cval() == -1:
+            if isinstance(lo, str) or not positive(lo):
+                return None, f"cannot show the argument of 1/(.) is positive: lower end {lo}"
+            lo, hi = (Ratio.const(0) if isinstance(hi, str) else hi.inv()), lo.inv()
+        elif o[0] == 'log':
+            if isinstance(lo, str) or not positive(lo):
+                return None, f"cannot show the argument of log is positive: lower end {lo}"
+            return True, "the masked interval keeps every 1/(.) and log argument of forward positive (interval propagation)"
+        else:
+            return None, f"operation {o[0]} in the chain"
+    return None, "forward has no domain-restricting operation"
+
+
 def sign_of_ratio(r, bounds, cdef):
     """+1 / -1 / None for a Ratio whose numerator and denominator are single terms"""
     sgn = 1
@@ -139,6 +235,8 @@ def run(rep):
                                "same condition as forward", line=line)
                     continue
                 ok, det = domain_ok(dcond, fchain, None)
+                if ok is None and dcond[0] == 'and':
+                    ok, det = interval_domain_ok(dcond, fchain, bounds)
                 cons = f"{name} [{ctext}]: nan-mask {F.show(dcond)}"
                 if ok is None:
                     rep.undecided("R02.a", file, f"{name}._jacobian", cons, det, line=line)
